@@ -1,6 +1,7 @@
 """Engine: global tables, name resolution, task runner (path exploration)."""
 import ast
 import time
+import os
 import traceback
 import z3
 
@@ -68,11 +69,14 @@ class Engine:
         self.props_filter = set(props_filter) if props_filter else None
         self.timeout_ms = timeout_ms
         self.max_paths = max_paths
+        self.task_budget_s = int(os.environ.get('SQV_TASK_BUDGET_S', '120'))
+        self.task_deadline = float('inf')
         self.str_lits = {}
         self.static_ids = {}
         self.static_by_id = {}
         self.float_lits = {}
         self.contracts = {}          # function key -> callee-side contract object (apply)
+        self.carry_c07 = (set(), set())
         self.carry = {}              # role of a callee under contract -> properties that carry its obligations
         self.missing_functions = []  # functions under contract that are not in the source (see contracts.common.add_task)
         self.finding_conds = {}      # obligation name -> [(finding id, cond(ex) -> z3 Bool)]
@@ -206,7 +210,11 @@ class Engine:
             elts = []
             for e in node.elts:
                 if isinstance(e, ast.Starred):
-                    raise Unsupported('starred in module tuple %s' % name)
+                    inner = ex.eval(e.value, Env())
+                    if not isinstance(inner, tuple):
+                        raise Unsupported('starred non-tuple in module tuple %s' % name)
+                    elts.extend(inner)
+                    continue
                 elts.append(ex.eval(e, Env()))
             ex.cur_module = saved
             v = tuple(elts)
@@ -289,11 +297,15 @@ class Engine:
     def run_task(self, task):
         res = TaskResult(task)
         t0 = time.time()
+        self.task_deadline = t0 + self.task_budget_s
         work = [[]]
         seen = 0
         while work:
             decisions = work.pop()
             seen += 1
+            if time.time() > self.task_deadline:
+                res.undecided.append('time budget of %d s for one function exceeded' % self.task_budget_s)
+                break
             if seen > self.max_paths:
                 res.undecided.append('path budget %d exceeded' % self.max_paths)
                 break
@@ -338,6 +350,13 @@ class Engine:
                 ex.in_prologue = False
         for fam in ex.families:
             fam.on_entry(ex, ctx)
+        if task.finfo is not None:
+            odd = [d for d in task.finfo.decorators if d.split('(')[0] not in self.calls.KNOWN_DECORATORS]
+            if odd:
+                # the body is verified as written; what callers get is the body wrapped by a decorator the model
+                # does not know (memoisation hands out objects of earlier calls, ...)
+                ex.prove('C11:%s:carries-no-unmodelled-decorator[@%s]' % (task.label.split(':')[-1], odd[0]),
+                         ['C%02d' % i for i in range(1, 21)], False, {'decorators': odd}, soft=True)
         outcome = None
         try:
             value = task.body(ex, ctx) if hasattr(task, 'body') and task.body else self.run_body(ex, task, ctx)
